@@ -376,9 +376,9 @@ PROPS["C18"] = {
     "modules": ["SlogModel.Props.C18"],
     "components": [("agent-c18", 100, 800), ("client", 300, 5000), ("buffer", 40, 600)],
     "rule": 'one case = one end-to-end run of the real agent in process (run.NewLoaderFromConfigFile -> StartOrchestrator -> LaunchInputs: TCP syslog input, extractions, transforms incl. a 100% drop filter, byKeySet orchestration, hybrid buffer, Fluentd Forward output in one of the three message modes) against a scripted fake upstream (per connection attempt: close at once / reset after k chunks / never ACK / late ACK / unknown-id ACK / healthy), 1-3 generations of graceful stop + restart on one queue directory, 1-3 client connections x 10-90 stamped records over 1-3 key sets with malformed and filtered records mixed in, stop after 0-100 ms, upstream session age 0/20/50/150 ms; all timeouts scaled to 10 ms - 2 s; the last generation ends with a healthy upstream; every second case has one more client that keeps writing right through every stop, every sixth a further datadog output whose upstream accepts the request and never answers (a forwarder that cannot be interrupted, with a request in flight at the stop: the stop must still return within the bound); distinct by script; all non-trivial',
-    "level_text": 'C18_client_can_always_finish (from every state of the client transition system with a stop request, a plan of at most five enabled actions - enter collectLeftovers, end the acknowledger, merge, hand back, OnFinished - reaches finished: the client can never wedge), C18_buffer_destroy_enabled (destroy is always enabled and leaves nothing in memory; with C03_shutdown_accounted every chunk is saved or counted), four facts (every select of the client has a stop case, the stop signal aborts the connection, every wait on the stop path has a timeout, every I/O call sets a deadline). Tie: wall time of every graceful stop of the real agent against the sum of the scaled timeouts, for refusing / resetting / silent / late upstreams and loads from idle to pending ACKs.',
+    "level_text": 'C18_client_can_always_finish (from every state of the client transition system with a stop request, a plan of at most five enabled actions - enter collectLeftovers, end the acknowledger, merge, hand back, OnFinished - reaches finished: the client can never wedge), C18_every_stop_run_ends_finished (once the stop is requested EVERY run of the actions of the stop path - enter collectLeftovers, the pending ACK read fails, the acknowledger is aborted (once per session) or sees its channel closed, merge, hand back - has at most six steps, and in every state on the way one of them is enabled: it cannot end before OnFinished), C18_buffer_destroy_enabled (destroy is always enabled and leaves nothing in memory; with C03_shutdown_accounted every chunk is saved or counted), four facts (every select of the client has a stop case, the stop signal aborts the connection, every wait on the stop path has a timeout, every I/O call sets a deadline). Tie: wall time of every graceful stop of the real agent against the sum of the scaled timeouts, for refusing / resetting / silent / late upstreams and loads from idle to pending ACKs.',
     "level_note": "Trusted: Lean kernel + 3 standard axioms. PARTIAL: time is not in the models - the bound itself is measured by the harness, the theorems decide absence of wedging and the number of bounded waits; 'blocked mid-write' upstreams are emulated by never reading ACK-less connections, not by a full TCP window.",
-    "partial": 'time bound measured, not proved; wedge-freedom proved on the models',
+    "partial": 'time bound measured, not proved; wedge-freedom and a six-step bound on every stop-path run proved on the models',
     "assumptions": ["the composition of component contracts in E2E.step matches how the components are wired (read from orchestrate/, buffer/, output/)"],
 }
 
